@@ -98,9 +98,17 @@ def _case(draw, tier):
         split = combine == "top_level"
     order = list(draw(st.permutations(frees)))
     sel = [["var", v] for v in order]
-    return {"ents": recs, "doms": doms, "vars": vars_, "cond": cond, "sel": sel,
+    case = {"ents": recs, "doms": doms, "vars": vars_, "cond": cond, "sel": sel,
             "desc": "entity" if (len(sel) == 1 and draw(st.booleans())) else "set_of", "quant": "an",
             "split_top": split, "dom_kind": "list", "klass": klass, "combine": combine, "u": u}
+    inner = [n for n in A.walk(cond) if n[0] == "forall"][0][2]
+    if not A.has_kind(cond, "not") and A.has_kind(inner, "cmp", "in") and chance(draw, 1, 4):
+        # the comparison objects of the quantified condition were used before, in an ordinary query over the same
+        # variables (where u is an ordinary variable), e.g. as an operand of or_ - which asks them for false results too
+        other = leaf(draw, ctx, [draw(st.integers(0, nF - 1))])
+        parts = [inner, other] if draw(st.booleans()) else [other, inner]
+        case["prelude_sharing_comparisons"] = [draw(st.sampled_from(["or", "or", "and"])), "nary", parts]
+    return case
 
 
 def strategy(tier):
@@ -128,6 +136,8 @@ def check(case) -> Outcome:
     feats.append(f"free{len(case['vars']) - 1}")
     feats.append("universal_is_attribute_expression" if len(fa) > 3 else "universal_is_variable")
     classes = list(feats) + [f"U{min(len(U), 4)}"]
+    if case.get("prelude_sharing_comparisons") is not None:
+        classes.append("comparison_objects_used_in_an_earlier_query")
     for caching in (True, False):
         (enable_caching if caching else disable_caching)()
         try:
@@ -155,4 +165,6 @@ def _mentions(c) -> set:
 def render(case):
     r = render_query(case)
     r["universal"] = f"v{case['u']}"
+    if case.get("prelude_sharing_comparisons") is not None:
+        r["earlier_query_sharing_the_comparison_objects"] = A.r_cond(case["prelude_sharing_comparisons"])
     return r
